@@ -67,7 +67,8 @@ def find_element_that_meets_mh(stack, metahandler):
 
 
 def create_tree_using_stacks(g: Grammar, r: ListWrapper, failures_limit=100):
-    all_stack_types = g.get_all_mentioned_symbols()
+    # a canonical order: set iteration order depends on hash seeds and memory addresses
+    all_stack_types = sorted(g.get_all_mentioned_symbols(), key=str)
 
     stacks: dict[type, list[Any]] = {k: [] for k in all_stack_types}
 
